@@ -6,6 +6,9 @@ from .syslevel import parse_rec
 
 AREA = "filter"
 UIDS = [0, 1, 999, 65534, 65535, 65536, 2 ** 31 - 1, 2 ** 31, 2 ** 32 - 2]
+# sanitizer reports are only counted, never read: no symbolisation (a crashing tree would otherwise take minutes)
+FAST_ASAN = {"ASAN_OPTIONS": "detect_leaks=0:exitcode=77:abort_on_error=0:allocator_may_return_null=1:symbolize=0",
+             "UBSAN_OPTIONS": "halt_on_error=1:exitcode=78:print_stacktrace=0:symbolize=0"}
 DRIVER_COMM = b"impl_filter"        # kernel process name of the implementation driver: the worker's parent
 
 
@@ -74,7 +77,7 @@ def measure_singles(run, exe, wanted, tag):
     os.makedirs(d, exist_ok=True)
     cp = os.path.join(d, "cases.txt")
     open(cp, "w").write("".join("single\t%d\t%d\t%d\t%s\t%s\n" % (r, e, t, hexs(n), hexs(a)) for (r, e, t, n, a) in keys))
-    out = run.run_impl(exe, cp, os.path.join(d, "impl.out"))
+    out = run.run_impl(exe, cp, os.path.join(d, "impl.out"), env=FAST_ASAN)
     if len(out) != len(keys):
         raise CheckError("singles: driver output length mismatch")
     res = {}
@@ -196,3 +199,30 @@ def malformed_list(rng, uid):
     return rng.choice([b"", b",", b",,", s + b",", b"," + s, s + b",," + s, b" " + s, s + b" ", b"+" + s, b"-" + s, b"-1", s + b"x", b"x" + s, b"0x10",
                        b"%d" % (uid + 2 ** 32), b"%d" % (uid + 2 ** 33), b"4294967296", b"99999999999999999999", b"-99999999999999999999",
                        b"9223372036854775807", b"9223372036854775808", b"1e3", b"1.0", b"abc", b"\t" + s, s + b";", b"0" * 400 + s, bytes(rng.choice(b"0123456789,-+ x") for _ in range(rng.choice([1, 5, 40])))])
+
+
+# ---------------------------------------------------------------------------------------------- helpers for the checks
+
+
+def shrink_list(items, still_fails, budget=48):
+    """greedy delta debugging over a list: drop halves, quarters, ..., single items while still_fails(items) holds"""
+    n = 2
+    used = 0
+    while len(items) >= 2 and used < budget:
+        chunk = max(1, len(items) // n)
+        reduced = False
+        for i in range(0, len(items), chunk):
+            cand = items[:i] + items[i + chunk:]
+            if not cand:
+                continue
+            used += 1
+            if still_fails(cand):
+                items, n, reduced = cand, max(n - 1, 2), True
+                break
+            if used >= budget:
+                break
+        if not reduced:
+            if chunk == 1:
+                break
+            n = min(len(items), n * 2)
+    return items
